@@ -7,20 +7,19 @@ PROP = dict(
     shrink_field="ops",
     max_reports=2,
     technique="Rocq proof (invariants over all event sequences of an updater/watcher model built on the shared store model) + traces of the real Store/Updater under testing/synctest and -race replayed on the model in the kernel",
-    level_text=("Machine-checked theorems over ALL event sequences (installs by polls, lookups, registrations, first reads, builder returns, Get begin/end, Err; any number of updaters on any "
+    level_text=("Machine-checked theorems over ALL event sequences (installs by polls, lookups, the locked part of a lookup flight finishing at ANY later point in any state, registrations, first reads, builder returns, Get begin/end, Err; any number of updaters on any "
                 "secrets) of an updater/watcher model that runs on the shared executable model of store.go: the notification slot of a resting updater is full exactly when a version was installed since "
                 "its last Get or its registration, and if empty the value was built from the newest installed bytes (or the last build, which failed, was given them); after any number >= 1 of installs the "
                 "next Get calls the builder once with the newest bytes and returns the new value (old value + Err on failure; Err cleared by the next success); without an install since the previous Get or "
                 "creation the builder is not called; every replaced Closer value is closed exactly once, the current one never, others never; a watcher registered at any point reads bytes at least as new "
-                "as those current at registration and misses no later install. Tied to the code by traces of the real Store/Updater under testing/synctest with -race (scripted service, Refresh-driven "
-                "installs, gated polls, installs during builder calls, concurrent Gets), replayed on the model in the kernel."),
+                "as those current at registration and misses no later install; a lookup flight that finishes on a name which already has a value changes neither the value nor any watcher flag (F8, repaired). Tied to the code by traces of the real Store/Updater under testing/synctest with -race (scripted service, Refresh-driven "
+                "installs, gated polls, installs during builder calls, concurrent Gets, callers held in the window between a lookup's unknown-name check and its flight by a context whose Deadline() blocks), replayed on the model in the kernel."),
     level_note=("Trusted: Coq kernel+VM; differential tie (sampled traces). PARTIAL: atomicity of Updater.Get (u.mu) and of the store's locked sections is an assumption of the model; data-race freedom is only "
-                "tested (-race, concurrent Get callers). The window between LookupSecret's unknown-name check and the start of its flight is outside the model (see docs/C15.md, finding candidate: a late "
-                "second flight overwrites a watched secret without notifying)."),
+                "tested (-race, concurrent Get callers). The window between LookupSecret's unknown-name check and the start of its flight is INSIDE the model since the F8 repair (event ELate) and exercised by the harness."),
     rule=("400 generated scenarios (6000 thorough) of 10-60 operations on the real Store: 1-3 updaters at start (several on one secret), rounds of 0-3 installs (service put + Refresh, 30% of them "
           "gated mid-flight with NewUpdater/Get/Err inside the gate, 10% failing) followed by 1-4 Gets (20% from 2-4 goroutines, 20% with an install performed during the builder call), builder failures "
-          "17-20%, undeclared and non-existent names, both AllowLookup settings; one case = one scenario; non-trivial if a value was rebuilt and at least two polls installed something; distinct by trace"),
-    explain="what Updater.Get returned, a builder call, a Close call or the outcome of NewUpdater differs from the updater model (which provably never loses an update, rebuilds only after an install, keeps the old value on failure and closes each replaced value exactly once)",
-    assumptions=["Updater.Get holds u.mu for the whole call (Gets of one updater serialise); data-race freedom is tested with -race, not proved",
-                 "LookupSecret's unknown-name check and the start of the flight are one atomic step"],
+          "17-20%, undeclared and non-existent names, both AllowLookup settings; plus 60 (1500) late-flight scenarios (1-2 callers of LookupSecret/NewUpdater held between check and flight, overtaken by NewUpdater/LookupSecret or not, "
+          "service version changed/deleted meanwhile, released in either order, then reads, Refresh, Gets) and the F8 witnesses from corpus/C15; one case = one scenario; non-trivial if a value was rebuilt and at least two polls installed something, or a released flight found its name already valued; distinct by trace"),
+    explain="what Updater.Get returned, a builder call, a Close call, the outcome of NewUpdater/LookupSecret, the bytes the store serves or the version a poll asks about differs from the updater model (which provably never loses an update, rebuilds only after an install, keeps the old value on failure and closes each replaced value exactly once)",
+    assumptions=["Updater.Get holds u.mu for the whole call (Gets of one updater serialise); data-race freedom is tested with -race, not proved"],
 )
